@@ -210,6 +210,31 @@ mod vharness {
         }
     }
 
+    /// exact value on LONG digit strings: the digits are the hex expansion of an arbitrary integer N of exactly K
+    /// digits (leading digit non-zero), so the expected result is the correctly rounded double of N - computed by
+    /// the cast `N as f64`, which CBMC models bit-precisely - whatever K is relative to any internal digit window
+    fn hex_value_k<const K: usize>() {
+        const HEX: [u8; 16] = *b"0123456789abcdef";
+        let n: u128 = kani::any();
+        if K < 32 { kani::assume(n < (1u128 << (4 * K))); }
+        kani::assume(n >> (4 * (K - 1)) != 0);                 // exactly K significant digits
+        let mut buf = [0u8; K];
+        let mut i = 0; while i < K { buf[i] = HEX[((n >> (4 * (K - 1 - i))) & 15) as usize]; i += 1; }
+        let s = unsafe { core::str::from_utf8_unchecked(&buf[..]) };
+        match parse_num_radix::<16>(s) {
+            Ok(v) => assert!(v == n as f64, "C20:radix:hex-value-is-the-correctly-rounded-double-of-the-integer"),
+            Err(_) => assert!(false, "C20:radix:a-string-of-hex-digits-is-accepted"),
+        }
+    }
+    //@harness props=C20,C06 strength=bounded bound="hex strings of exactly 17 digits, EVERY value (16^16 .. 16^17 - 1)" clause="std.parseHex of a 17-digit string is the correctly rounded double of the integer it denotes (more digits than a double's 53 bits, fewer than any 128-bit window)" timeout=1200 replay=radix_value
+    #[kani::proof]
+    #[kani::unwind(20)]
+    fn radix_hex_value_17_digits() { hex_value_k::<17>(); }
+    //@harness props=C20,C06 strength=bounded tier=thorough bound="hex strings of exactly 24 digits, EVERY value" clause="std.parseHex of a 24-digit string is the correctly rounded double of the integer it denotes" timeout=1800 replay=radix_value
+    #[kani::proof]
+    #[kani::unwind(27)]
+    fn radix_hex_value_24_digits() { hex_value_k::<24>(); }
+
     //@harness props=C20 strength=bounded expect=fail clause="canary"
     #[kani::proof]
     #[kani::unwind(9)]
